@@ -615,6 +615,8 @@ struct Case {
     task_of: Vec<usize>, // effect id of the i-th spawned task
     log: Arc<Mutex<Vec<(usize, String)>>>,
     _imms: Vec<ImmediateEffect>,
+    /// per reader: has its field ever existed (keyed item: has its key ever been in the collection)?
+    ever: Vec<bool>,
 }
 
 fn snapshot(c: &Case) -> V {
@@ -688,21 +690,38 @@ fn values_bad(c: &Case, log: &[(usize, String)]) -> bool {
     })
 }
 
-fn judge_write(c: &Case, rb: &[usize], ra: &[usize], log: &[(usize, String)], ws: &[Chain]) -> &'static str {
+fn judge_write(
+    c: &Case,
+    rb: &[usize],
+    ra: &[usize],
+    log: &[(usize, String)],
+    ws: &[Chain],
+    wc: &Chain,
+) -> &'static str {
+    let snap = snapshot(c);
     let exp: Vec<usize> =
         (0..c.readers.len()).filter(|e| ws.iter().any(|w| related(w, &c.readers[*e].chain))).collect();
     let ran = dedup(&log.iter().map(|x| x.0).collect::<Vec<_>>());
     if values_bad(c, log) {
         return "fail value";
     }
-    if ra.iter().any(|e| !rb.contains(e) && !exp.contains(e)) || ran.iter().any(|e| !exp.contains(e)) {
+    // a reader of a key that has never been in the collection has no field: waking it is not held
+    // against the code (the statement speaks of readers of fields)
+    let excused =
+        |e: &usize| !c.ever[*e] && logical_get(&snap, &c.readers[*e].chain) == LSeen::None;
+    if ra.iter().any(|e| !rb.contains(e) && !exp.contains(e) && !excused(e))
+        || ran.iter().any(|e| !exp.contains(e) && !excused(e))
+    {
         return "fail spurious";
     }
     if exp.iter().any(|e| if c.readers[*e].imm { !ran.contains(e) } else { !ra.contains(e) }) {
         return "fail missing";
     }
+    // readers of proper ancestors of the written field run before readers of its proper descendants
     for (i, e) in ran.iter().enumerate() {
-        if ran[i + 1..].iter().any(|e2| strict_prefix(&c.readers[*e2].chain, &c.readers[*e].chain)) {
+        if strict_prefix(wc, &c.readers[*e].chain)
+            && ran[i + 1..].iter().any(|e2| strict_prefix(&c.readers[*e2].chain, wc))
+        {
             return "fail order";
         }
     }
@@ -724,6 +743,19 @@ fn new_case(root: Root) -> Case {
         task_of: vec![],
         log: Default::default(),
         _imms: vec![],
+        ever: vec![],
+    }
+}
+
+fn update_ever(c: &mut Case) {
+    let snap = snapshot(c);
+    for e in 0..c.readers.len() {
+        let now = logical_get(&snap, &c.readers[e].chain) != LSeen::None;
+        if e < c.ever.len() {
+            c.ever[e] |= now
+        } else {
+            c.ever.push(now)
+        }
     }
 }
 
@@ -775,7 +807,8 @@ fn do_write(c: &mut Case, chain: &Chain, op: Do, is_patch: bool, newv: Option<&V
     };
     let log = take_log(c);
     let ra = ready_ids(c);
-    let v = judge_write(c, &rb, &ra, &log, &ws);
+    update_ever(c);
+    let v = judge_write(c, &rb, &ra, &log, &ws, chain);
     render(c, &format!("w={wrote} "), &log, v)
 }
 
@@ -818,6 +851,7 @@ fn op_line(case: &mut Option<Case>, w: &[&str]) -> String {
                 return "bad-op".into();
             }
             add_reader(c, ch, iter, kind.starts_with("imm"));
+            update_ever(c);
             let log = take_log(c);
             let v = if values_bad(c, &log) { "fail value" } else { "ok" };
             render(c, "", &log, v)
